@@ -145,6 +145,41 @@ def cases(rng, which, count):
                 if rng.random() < 0.4:
                     fl.append(rng.choice(["-r", "--reverse"]))
                 yield Case("cli_lib", [st, "subseq"] + fl, True, "cli-subseq-general")
+            elif w == "subsites":
+                # `subsites` with every flag: sites on the command line or in a file (one per line; a malformed line, an absent
+                # file, no site at all), on the alignment or on an ungapped reference row, the complement, the informative sites
+                gr = [(nm, "".join(rng.choice("ACGT-" + "-" * rng.choice([0, 3])) for _ in range(L))) for nm, _ in rows]
+                if rng.random() < 0.4:
+                    cols = [rng.choice(["A" * n, "".join(rng.choice("AC") for _ in range(n)), "".join(rng.choice("ACGT-N") for _ in range(n))]) for _ in range(L)]
+                    gr = [(rows[i][0], "".join(c[i] for c in cols)) for i in range(n)]
+                sg = esc(fasta(gr))
+                sites = [str(rng.randint(0, L - 1) if rng.random() < 0.93 else rng.choice([L, L + 3])) for _ in range(rng.randint(1, 5))]
+                fl = []
+                if rng.random() < 0.45:
+                    fl += ["--ref-seq", rng.choice([r[0] for r in gr] + (["nope"] if rng.random() < 0.2 else []))]
+                if rng.random() < 0.45:
+                    fl.append(rng.choice(["-r", "--reverse"]))
+                k = rng.random()
+                if k < 0.2:
+                    fl.append("--informative")
+                    if rng.random() < 0.5:
+                        fl = fl + sites
+                    yield Case("cli_lib", [sg, "subsites"] + fl, True, "cli-subsites-informative")
+                elif k < 0.6:
+                    a = rng.randint(0, len(sites))
+                    argv = sites[:a] + fl + sites[a:]
+                    if rng.random() < 0.04:
+                        argv = fl
+                    yield Case("cli_lib", [sg, "subsites"] + argv, True, "cli-subsites-flags")
+                else:
+                    txt = "|".join(sites) + rng.choice(["|", "|", ""])
+                    q = rng.random()
+                    if q < 0.05:
+                        txt = rng.choice(["", "x|", "1||2|", "1 |"])
+                    fl += ["--sitefile", "sites.txt" if rng.random() < 0.95 else "absent.txt"]
+                    if rng.random() < 0.3:
+                        fl = [str(rng.randint(0, L - 1))] + fl                      # ignored
+                    yield Case("cli_libf", [sg, "sites.txt=" + txt, "subsites"] + fl, True, "cli-subsites-file")
             elif w == "split":
                 # `split --partition`: a partition file (RAxML style) covering the sites with 1-4 partitions given as
                 # runs, single sites and strided ranges; sometimes a site is left out, given twice or beyond the end
